@@ -2,6 +2,7 @@
 import hashlib
 import json
 import os
+os.environ.setdefault('RUST_MIN_STACK', '67108864')  # long straight-line units overflow rustc's default 8 MB stack
 import re
 import shutil
 import subprocess
